@@ -216,3 +216,26 @@ Fixpoint check_from (s : state) (t : tols) (prev : list (Z * fobs)) (c : case) (
 
 (** (index of the first diverging step or -1, index of the first step violating C17 or -1, clause code) *)
 Definition check_case (c : case) : Z * Z * Z := check_from init [] [] c 0 (-1) (-1) 0.
+
+(** ** Compressed cases, as the harness writes them: a feed whose observation did not change since
+    the previous step is written [None] (the case terms are several times smaller; Coq spends its
+    time parsing them).  [expand_from] restores the full case. *)
+Record cobs := mkCObs { co_code : Z; co_feeds : list (Z * option fobs) }.
+Definition ccase := list (step * cobs).
+
+Definition expand_feed (prev : list (Z * fobs)) (nf : Z * option fobs) : Z * fobs :=
+  let '(n, ofo) := nf in
+  (n, match ofo with
+      | Some fo => fo
+      | None => match get n prev with Some p => p | None => empty_fobs end
+      end).
+
+Fixpoint expand_from (prev : list (Z * fobs)) (c : ccase) : case :=
+  match c with
+  | [] => []
+  | (st, o) :: rest =>
+      let fs := map (expand_feed prev) (co_feeds o) in
+      (st, mkObs (co_code o) fs) :: expand_from fs rest
+  end.
+
+Definition check_case_c (c : ccase) : Z * Z * Z := check_case (expand_from [] c).
